@@ -313,7 +313,19 @@ func c16Verifier(r *Run, t *tape.Tape) {
 	good := refcose.ECDSASigBytes(curve, rr, ss)
 	var offered []byte
 	variant := ""
-	switch t.Choose(13, "c16.variant") {
+	switch t.Choose(14, "c16.variant") {
+	case 13:
+		// the first bytes of a DER signature, or a DER header with nothing
+		// behind it: what a truncating channel leaves of a DER-encoding peer's
+		// signature
+		der, _ := asn1.Marshal(struct{ R, S *big.Int }{rr, ss})
+		fixed := [][]byte{{0x30}, {0x30, 0x00}, {0x30, 0x81}, {0x30, 0x81, 0x00}, {0x30, 0x02, 0x02}, {0x30, 0x03, 0x02, 0x01}, {0x30, 0x06, 0x02, 0x01, 0x01, 0x02}}
+		if i := t.Choose(len(fixed)+6, "c16.derprefix"); i < len(fixed) {
+			offered = fixed[i]
+		} else {
+			offered = der[:min(len(der), 1+t.Choose(8, "c16.derprefix.n"))]
+		}
+		variant = "der-prefix"
 	case 11, 12:
 		// a half replaced by itself plus the group order, where that still
 		// fits the fixed width: congruent modulo n, but not in [1, n-1]
